@@ -145,6 +145,40 @@ def kernel_obligations(mod, stubs, cfg, st, timeout):
     return res, info, ex
 
 
+def partition_lemma(cfg, st, timeout):
+    """Partition lemma over the *characterisation* C(k; F, S, c1, c2) that kernel_obligations proves for the real kernel's outputs:
+         F = q*fc,  F <= k*d*1000/n < F+fc,   S = p*sc,  S <= k*d/n < S+sc,   c1 = first sample at/after F ms,  c2 = ... F+fc ms
+    For k1 < k2: the two files are identical (same F => same window, same subdirectory) or disjoint and ordered (c2_1 <= c1_2, F1 < F2,
+    S1 <= S2).  Rate and cadences symbolic (cfg=None) or concrete.  This is what licenses the window abstraction in vlib/wpath.py.
+    -> [(name, verdict, model, dt)]"""
+    n, d, sc, fc = z3.Ints('n d sc fc')
+    pre = [n >= 1, n < 2**32, d >= 1, d <= 10**9, n * d < 2**64, sc >= 1, sc <= 10**8, fc >= 1, fc <= 10**11]
+    if cfg: pre += [n == cfg[0], d == cfg[1], sc == cfg[2], fc == cfg[3]]
+    r_ = z3.Int('r'); pre += [sc * 1000 == r_ * fc, r_ >= 1]
+    k1, k2 = z3.Ints('k1 k2'); pre += [k1 >= 0, k1 < k2, k2 < 2**61]
+    V = []
+    for i, k in ((1, k1), (2, k2)):
+        q, p, c1, c2 = (z3.Int('%s%d' % (x, i)) for x in ('q', 'p', 'c1', 'c2'))
+        Fm = q * fc; D = p * sc
+        pre += [q >= 0, p >= 0, Fm * n <= k * d * 1000, k * d * 1000 < (Fm + fc) * n, D * n <= k * d, k * d < (D + sc) * n,
+                c1 * d * 1000 >= Fm * n, (c1 - 1) * d * 1000 < Fm * n, c2 * d * 1000 >= (Fm + fc) * n, (c2 - 1) * d * 1000 < (Fm + fc) * n]
+        V.append((q, p, c1, c2))
+    (q1, p1, a1, b1), (q2, p2, a2, b2) = V
+    steps = [('hint: p1*r <= q1 < (p1+1)*r', z3.And(p1 * r_ <= q1, q1 < (p1 + 1) * r_)),
+             ('hint: p2*r <= q2 < (p2+1)*r', z3.And(p2 * r_ <= q2, q2 < (p2 + 1) * r_)),
+             ('file time is monotone in the index (F1 <= F2)', q1 <= q2),
+             ('same file => same window', z3.Implies(q1 == q2, z3.And(a1 == a2, b1 == b2))),
+             ('different files => windows disjoint and ordered (c2_1 <= c1_2)', z3.Implies(q1 < q2, b1 <= a2)),
+             ('subdirectory time is monotone in the index (S1 <= S2)', p1 <= p2),
+             ('same file => same subdirectory (cadence rule)', z3.Implies(q1 == q2, p1 == p2))]
+    out = []; proven = []
+    for nm, cl in steps:
+        r, m, dt = smt.prove(pre, cl, proven, timeout, st)
+        out.append(('partition lemma: ' + nm, r, None if m is None else tuple(smt.mval(m, x) for x in (n, d, sc, fc, k1, k2)), dt))
+        if r == 'unsat': proven.append(cl)
+    return out
+
+
 def ctor_cadence(mod, stubs, rep, st):
     """digital_rf_create_write_hdf5: returns NULL before touching the channel when the cadence rule is broken; stores cadences unchanged."""
     out = []
@@ -329,6 +363,19 @@ def main(tier):
                    detail='NIA unknown for: ' + '; '.join(sym_unk))
     except Inconclusive as e:
         rep.ob('symbolic rate+cadence kernel', 'witness', detail='not decided symbolically (%s); per-configuration twins below' % e)
+    part_sym = False
+    try:
+        pres = partition_lemma(None, st, 40 if tier == 'quick' else 240)
+        part_sym = bool(pres) and all(r == 'unsat' for _, r, _, _ in pres)
+        for nm, r, case, dt in pres:
+            if r == 'unsat': rep.ob('symbolic rate+cadence: ' + nm, 'discharged', 'all rates/cadences, all k1<k2, time<year 9999', 1, dt, 1)
+            elif r == 'sat' and case is not None:
+                rep.violation('symbolic: ' + nm, 'C04.partition', '%s fails at (n,d,sc,fc,k1,k2)=%s' % (nm, case),
+                              replay_body=REPLAY % ([case[:4] + (0, case[4]), case[:4] + (0, case[5])],))
+            else:
+                rep.ob('symbolic rate+cadence: ' + nm, 'witness', None, 1, dt, 0, detail='NIA unknown; decided per configuration below')
+    except Inconclusive as e:
+        rep.ob('symbolic partition lemma', 'witness', detail='not decided symbolically (%s); per-configuration twins below' % e)
 
     # ---- 2. concrete (rate, cadence) twins: linear, complete
     t0 = time.time(); ncfg = 0; q0 = st.queries; all_ok = True; paths = 0; wits = []
@@ -340,12 +387,14 @@ def main(tier):
                 res, info, ex = kernel_obligations(mod, stubs, cfg, st, 120)
             except Inconclusive as e:
                 rep.ob('rate %d/%d cadence %d s/%d ms' % (n, d, sc, fc), 'inconclusive', detail=str(e)); all_ok = False; continue
+            if not part_sym:
+                res = res + partition_lemma((n, d, sc, fc), st, 120)
             ok, names = report('rate %d/%d cadence %ds/%dms' % (n, d, sc, fc), cfg, res, info, ex, t0)
             all_ok &= ok; ncfg += 1; paths += info.get('paths', 0)
             if 'wit' in info: wits.append(info['wit'])
             wits += info.get('bwit', [])
     if all_ok:
-        rep.ob('layout kernel == spec (return, subdir second+format, basename, samples_left, max, window, no-wrap)', 'discharged',
+        rep.ob('layout kernel == spec (return, subdir second+format, basename, samples_left, max, window, no-wrap) + partition lemma', 'discharged',
                '%d (rate, cadence) configurations x all start/sample with time in [1980,2100)' % ncfg, st.queries - q0, time.time() - t0, paths,
                sample={'configs': [(r_, c_) for r_ in rate_list[:3] for c_ in cad_list[:2]], 'witnesses': wits[:3]})
     # ---- 3. constructors
